@@ -199,9 +199,12 @@ func (p *Parser) GenerateBaseCode() (code string, err error) {
 			}
 		}
 
-		// Insert markers.
-		util.InsertComment(p.file, entry.marker, minPos)
+		// Insert markers, the closing one first: InsertComment appends a comment
+		// to an existing group when its position falls inside that group's span,
+		// and the opening marker's span (its text is 21 bytes long) covers the
+		// closing brace of a short interface such as `{ F(S) D }`.
 		util.InsertComment(p.file, entry.marker, maxPos)
+		util.InsertComment(p.file, entry.marker, minPos)
 	}
 
 	var buf bytes.Buffer
